@@ -52,6 +52,12 @@ T10 == { <<SDef("FNA", <<X>>, Bin("add", Bin("mul", X, LI(2)), Y))>>,
          <<SDef("FNC", <<P, Q>>, Bin("sub", FB(<<Q, P>>), LI(1))), PV(FnCall("FNC", <<LI(1), LI(4)>>))>>,
          <<SDef("FNE", <<P, Q>>, Bin("add", Arr("A", "A", "", <<P, Q>>), CallF("LEN", <<CallF("MID$", <<LStr(<<65, 66, 67, 68>>), P, Q>>)>>))),
            SLet(Arr("A", "A", "", <<LI(1), LI(2)>>), LI(10)), SLet(P, LI(0)), SLet(Q, LI(0)), PV(FnCall("FNE", <<LI(1), LI(2)>>))>>,
+         \* functions whose names differ only in the type suffix are different functions with
+         \* parameters of their own: the caller's parameter survives the nested call
+         <<SDef("FNS%", <<X>>, Bin("add", Bin("mul", FnCall("FNS#", <<Bin("add", X, LI(1))>>), LI(10)), X)),
+           SDef("FNS#", <<X>>, X), PV(FnCall("FNS%", <<LI(1)>>))>>,
+         <<SDef("FNA$", <<X>>, Bin("add", CallF("STR$", <<FA(<<Bin("add", X, LI(1))>>)>>), CallF("STR$", <<X>>))),
+           PV(FnCall("FNA$", <<LI(1)>>))>>,
          <<SLet(X, LI(5)), SLet(Y, LI(1))>>,
          <<PV(FA(<<LI(3)>>)), PV(X)>>,
          <<PV(FB(<<LI(1), LI(2)>>)), PV(Y)>>,
